@@ -230,6 +230,16 @@ struct Obs {
 }
 
 fn enrich(kind: usize, bg: Vec<HpoTerm>, sample: Vec<HpoTerm>) -> Result<Vec<Obs>, String> {
+    // the functions take any IntoIterator: alternate between Vecs and iterators without an exact size hint
+    if (bg.len() + sample.len()) % 2 == 1 {
+        let bg = bg.into_iter().filter(|_| true);
+        let sample = sample.into_iter().map_while(Some);
+        return guarded(|| match kind {
+            GENE => gene_enrichment(bg, sample).iter().map(|e| Obs { id: e.id().as_u32(), count: e.count(), p: e.pvalue(), fold: e.enrichment() }).collect(),
+            OMIM => omim_disease_enrichment(bg, sample).iter().map(|e| Obs { id: e.id().as_u32(), count: e.count(), p: e.pvalue(), fold: e.enrichment() }).collect(),
+            _ => orpha_disease_enrichment(bg, sample).iter().map(|e| Obs { id: e.id().as_u32(), count: e.count(), p: e.pvalue(), fold: e.enrichment() }).collect(),
+        });
+    }
     guarded(|| match kind {
         GENE => gene_enrichment(bg, sample).iter().map(|e| Obs { id: e.id().as_u32(), count: e.count(), p: e.pvalue(), fold: e.enrichment() }).collect(),
         OMIM => omim_disease_enrichment(bg, sample).iter().map(|e| Obs { id: e.id().as_u32(), count: e.count(), p: e.pvalue(), fold: e.enrichment() }).collect(),
